@@ -344,16 +344,15 @@ theorem C12_finding_numeric_pcr_fixed :
     malformed "LDA" "[0,PCR]" = some (3, [0xA6, 0x9C, 0x00], some (⟨"LDA", .idx (.pcr 0 true 8)⟩, 3)) := by
   refine ⟨?_, ?_, ?_, ?_, ?_⟩ <;> decide +kernel
 
-/-- FINDING (new, found while proving `C12_full`; well-formed but of doubtful meaning): an accumulator offset before an
-auto increment / decrement register is ACCEPTED and the increment silently dropped: `LDA A,X+` is assembled as
-`A,X` (`A6 86`), `LDA B,-X` as `B,X` (`A6 85`), `LDA [D,--Y]` as `[D,Y]` (`A6 BB`).  The 6809 has no such mode; a
-constant offset in that place (`5,X+`) IS rejected. -/
-theorem C12_finding_acc_autoincrement :
-    malformed "LDA" "A,X+" = some (2, [0xA6, 0x86], some (⟨"LDA", .idx (.acc 6 0 false)⟩, 2)) ∧
-    malformed "LDA" "B,-X" = some (2, [0xA6, 0x85], some (⟨"LDA", .idx (.acc 5 0 false)⟩, 2)) ∧
-    malformed "LDA" "[D,--Y]" = some (2, [0xA6, 0xBB], some (⟨"LDA", .idx (.acc 11 1 true)⟩, 2)) ∧
-    malformed "LDA" "5,X+" = none := by
-  refine ⟨?_, ?_, ?_, ?_⟩ <;> decide +kernel
+/-- REPAIRED (batch B3; formerly `C12_finding_acc_autoincrement`: an accumulator offset before an auto increment /
+decrement register was ACCEPTED and the increment silently dropped, `LDA A,X+` = `A6 86`, `LDA B,-X` = `A6 85`,
+`LDA [D,--Y]` = `A6 BB`): the 6809 has no such mode and all three are rejected now ("invalid indexed expression"),
+like a constant offset in that place (`5,X+`) -/
+theorem C12_finding_acc_autoincrement_fixed :
+    malformed "LDA" "A,X+" = none ∧ malformed "LDA" "B,-X" = none ∧ malformed "LDA" "[D,--Y]" = none ∧
+    malformed "LDA" "5,X+" = none ∧
+    asmOne "LDA" "A,X+" = none ∧ asmOne "LDA" "B,-X" = none ∧ asmOne "LDA" "[D,--Y]" = none := by
+  refine ⟨?_, ?_, ?_, ?_, ?_, ?_, ?_⟩ <;> decide +kernel
 
 /-- why `C12_Statement` speaks about operands the front end builds: an operand RECORD no source text produces
 (a direct operand carrying a string) is accepted with four bytes for an announced size of two -/
@@ -402,6 +401,33 @@ theorem C12_pcr_without_offset_rejected_ind {o : Asm.Operand} {r : InstrRow} {l 
   simp only [translateOperand, hb.1, translateExtIndirect, hc, opVal_ok hc', hb.2.1, hb.2.2, hr, pure_bind, hv, hl, hl'']
   by_cases h0 : c = 0 <;> simp [h0] <;> rfl
 
+
+/-- **an accumulator offset with auto increment / decrement is REJECTED** (`A,X+`, `B,-X`, `D,--Y`; repair batch B3):
+for a row of the table, whatever the register text -/
+theorem C12_acc_autoincrement_rejected {o : Asm.Operand} {r : InstrRow} {l right : Str} {c : Nat} (hk : o.kind = .indexed)
+    (hc : r.ind = some c) (hc' : c < 65536)
+    (hl : o.left = .text l) (habd : isABD l = true) (hr : o.right = some right)
+    (hpm : (hasSub ['+'] right || hasSub ['-'] right) = true) :
+    translateOperand o r = .error .operandType := by
+  obtain ⟨a, l', rfl⟩ : ∃ a l', l = a :: l' := by
+    cases l with
+    | nil => simp [isABD] at habd
+    | cons a l' => exact ⟨a, l', rfl⟩
+  simp only [translateOperand, hk, translateIndexed, hc, hr, hl, pure_bind, opVal_ok hc', habd, hpm]
+  by_cases h0 : c = 0 <;> cases validIndexReg right <;> cases (right == str "PCR") <;> simp [h0] <;> rfl
+
+/-- the same inside brackets (`[D,--Y]`) -/
+theorem C12_acc_autoincrement_rejected_ind {o : Asm.Operand} {r : InstrRow} {l right : Str} {c : Nat}
+    (hb : Bracketed o) (hc : r.ind = some c) (hc' : c < 65536)
+    (hl : o.left = .text l) (habd : isABD l = true) (hr : o.right = some right)
+    (hpm : (hasSub ['+'] right || hasSub ['-'] right) = true) :
+    translateOperand o r = .error .operandType := by
+  obtain ⟨a, l', rfl⟩ : ∃ a l', l = a :: l' := by
+    cases l with
+    | nil => simp [isABD] at habd
+    | cons a l' => exact ⟨a, l', rfl⟩
+  simp only [translateOperand, hb.1, translateExtIndirect, hc, opVal_ok hc', hb.2.1, hb.2.2, hr, hl, pure_bind, habd, hpm]
+  by_cases h0 : c = 0 <;> cases validIndexReg right <;> cases (right == str "PCR") <;> simp [h0] <;> rfl
 
 /-- **an instruction cannot stack its own pointer** (`PSHS S`, `PULS A,S`, `PSHU U`, `PULU U,X`): every register
 list that names it is REJECTED -/
@@ -463,6 +489,11 @@ theorem C12_rejected_programs (fs : Files) :
    progDiag_sound (by decide +kernel) fs, progDiag_sound (by decide +kernel) fs, progDiag_sound (by decide +kernel) fs,
    progDiag_sound (by decide +kernel) fs, progDiag_sound (by decide +kernel) fs⟩
 
+/-- ... and so do the accumulator offsets with auto increment / decrement (repair batch B3) -/
+theorem C12_acc_autoincrement_programs (fs : Files) :
+    assemble fs [" LDA A,X+\n".toList] = .diag ∧ assemble fs [" LDA B,-X\n".toList] = .diag ∧
+    assemble fs [" LDA [D,--Y]\n".toList] = .diag := C01_acc_autoincrement_programs fs
+
 end CoCo.Props
 
 section axioms
@@ -476,5 +507,7 @@ open CoCo.Props
 #print axioms C12_unknown_index_register_rejected
 #print axioms C12_pcr_without_offset_rejected
 #print axioms C12_own_stack_pointer_rejected
+#print axioms C12_acc_autoincrement_rejected
+#print axioms C12_acc_autoincrement_rejected_ind
 #print axioms C12_rejected_programs
 end axioms
